@@ -841,8 +841,13 @@ class LangServer:
                 )
             ):
                 curr_scope = curr_scope.parent
+            # The line the statement starts on, which is what a scope records
+            # for its definition and END statements
             var_obj = find_in_scope(
-                curr_scope, def_name, self.obj_tree, var_line_number=def_line + 1
+                curr_scope,
+                def_name,
+                self.obj_tree,
+                var_line_number=def_line + 1 - len(pre_lines),
             )
         # Search in global scope
         if var_obj is None:
